@@ -156,5 +156,10 @@ def run(ctx):
         ctx.ob('C06-D3', name, 'return Ok(())', 'no Failure log on the path', bad is None, detail='' if bad is None else 'failure log at %s can be followed by Ok' % loc(bad['span']))
         reach_ok = any(b['t']['k'] == 'ret' for b in fn.B)
         ctx.ob('C06-D3', name, 'return Ok(())', 'reachable', reach_ok, nontrivial=False)
+    # ---- D6 decision-table agreement (every profile failure keeps its deciding conditions)
+    import decisions
+    for name, tn in ((CCP, 'C06_check_certificate_profile'), (CEE, 'C06_check_end_entity_certificate_profile')):
+        if prog.has(name):
+            decisions.compare(ctx, 'C06-D6', prog, T, prog.fn(name), consts, tn, k=4, bools=True)
     # D5 code/kind agreement for signingCredential.* codes
     verdict.code_kind_agreement(ctx, prog, 'C06-D5', code_filter=lambda c: c.startswith('signingCredential.'))
